@@ -643,6 +643,10 @@ def tag_compat(t1, t2):
     for a, b in ((t1, t2), (t2, t1)):
         if isinstance(a, tuple) and a[0] == 'filter' and a[1] == b:
             return True
+    # two filters of the same order whose membership sets are not both known containers: whether they keep the same elements is not derived
+    if isinstance(t1, tuple) and isinstance(t2, tuple) and t1[0] == t2[0] == 'filter' and t1[1] == t2[1] \
+            and any(isinstance(t[2], str) and t[2].startswith('cond:') for t in (t1, t2) if len(t) > 2):
+        return None
     return False
 
 
@@ -1096,6 +1100,8 @@ class OrderKind(AbsInt):
             return ('ord', (name, t)) if t is not TOP else TOP
         if name in ('list', 'tuple', 'pandas.Index') and args:
             return self.value(args[0], fr)
+        if name in ('numpy.setdiff1d', 'numpy.union1d', 'numpy.intersect1d', 'numpy.unique', 'numpy.setxor1d') and args:
+            return ('ord', ('diff', id(node)))          # NumPy's set routines return sorted unique values
         return TOP
 
     def method_call(self, meth, node, recv, fr):
